@@ -215,3 +215,63 @@ M("c15-exit-printf", "C15", "V",
   ("cmd/goag/main.go", "log.Fatalf(\"Error on generate: %v\", err)", "log.Printf(\"Error on generate: %v\", err)"))
 M("c15-exit-discard-dir-error", "C15", "V",
   ("cmd/goag/main.go", "\t\terr = g.GenerateDir(", "\t\t_ = g.GenerateDir("))
+
+# ------------------------------------------------------------------ round 3: refactored-but-wrong variants
+# (each uses a spelling the generalised recognisers accept and adds a defect: they must still be reported)
+SPLIT_OLD = "\tidx := strings.Index(s[1:], \"/\")\n\tif idx == -1 {\n\t\treturn s, \"\"\n\t}\n\treturn s[:idx+1], s[idx+1:]\n"
+M("c03-splitpath-rewritten-ok", "C03", "S",
+  ("generator/file_router.gotmpl", SPLIT_OLD,
+   "\tif idx := strings.IndexByte(s[1:], '/'); idx >= 0 {\n\t\tend := idx + 1\n\t\treturn s[:end], s[end:]\n\t}\n\treturn s, \"\"\n"))
+M("c03-splitpath-rewritten-off-by-one", "C03", "V",
+  ("generator/file_router.gotmpl", SPLIT_OLD,
+   "\tif idx := strings.IndexByte(s[1:], '/'); idx >= 0 {\n\t\tend := idx + 2\n\t\treturn s[:end], s[end:]\n\t}\n\treturn s, \"\"\n"))
+M("c03-splitpath-rewritten-gt-zero", "C03", "V",
+  ("generator/file_router.gotmpl", SPLIT_OLD,
+   "\tif idx := strings.IndexByte(s[1:], '/'); idx > 0 {\n\t\tend := idx + 1\n\t\treturn s[:end], s[end:]\n\t}\n\treturn s, \"\"\n"))
+M("c14-splitpath-rewritten-off-by-one", "C14", "V",
+  ("generator/file_router.gotmpl", SPLIT_OLD,
+   "\tif idx := strings.IndexByte(s[1:], '/'); idx >= 0 {\n\t\tend := idx + 3\n\t\treturn s[:end], s[end:]\n\t}\n\treturn s, \"\"\n"))
+PV_OLD = "\tidx := strings.Index({{ .From }}, \"/\")\n\tif idx == -1 {\n\t\tidx = len({{ .From }})\n\t}\n\tvPath := {{ .From }}[:idx]\n\t{{ .From }} = {{ .From }}[idx:]\n"
+M("c05-segment-cut-ok", "C05", "S",
+  ("generator/file_handler.gotmpl", PV_OLD, "\tvPath, _, _ := strings.Cut({{ .From }}, \"/\")\n\t{{ .From }} = {{ .From }}[len(vPath):]\n"))
+M("c05-segment-cut-swallows-slash", "C05", "V",
+  ("generator/file_handler.gotmpl", PV_OLD, "\tvPath, rest, found := strings.Cut({{ .From }}, \"/\")\n\t_ = found\n\t{{ .From }} = rest\n"))
+M("c05-segment-until-last-slash", "C05", "V",
+  ("generator/file_handler.gotmpl", PV_OLD, "\tidx := strings.LastIndex({{ .From }}, \"/\")\n\tif idx == -1 {\n\t\tidx = len({{ .From }})\n\t}\n\tvPath := {{ .From }}[:idx]\n\t{{ .From }} = {{ .From }}[idx:]\n"))
+LOOP_OLD = "\t\tfor i := len(rt.Middlewares) - 1; i >= 0; i-- {\n\t\t\th = rt.Middlewares[i](h)\n\t\t}\n"
+M("c16-loop-form-ok", "C16", "S",
+  ("generator/file_router.gotmpl", LOOP_OLD, "\t\tfor n := len(rt.Middlewares); n > 0; n-- {\n\t\t\th = rt.Middlewares[n-1](h)\n\t\t}\n"))
+M("c16-loop-form-skips-first", "C16", "V",
+  ("generator/file_router.gotmpl", LOOP_OLD, "\t\tfor n := len(rt.Middlewares); n > 1; n-- {\n\t\t\th = rt.Middlewares[n-1](h)\n\t\t}\n"))
+M("c16-loop-form-forward", "C16", "V",
+  ("generator/file_router.gotmpl", LOOP_OLD, "\t\tfor i := range rt.Middlewares {\n\t\t\th = rt.Middlewares[i](h)\n\t\t}\n"))
+M("c14-loop-form-out-of-range", "C14", "V",
+  ("generator/file_router.gotmpl", LOOP_OLD, "\t\tfor n := len(rt.Middlewares); n >= 0; n-- {\n\t\t\th = rt.Middlewares[n](h)\n\t\t}\n"))
+OR_OLD = "\t\t\tfor _, fn := range fns {\n\t\t\t\tif fn == nil {\n\t\t\t\t\tcontinue\n\t\t\t\t}\n\t\t\t\tauthReq, ok := fn.Auth(r)\n\t\t\t\tif ok {\n\t\t\t\t\tnext.ServeHTTP(w, authReq)\n\t\t\t\t\treturn\n\t\t\t\t}\n\t\t\t}\n\t\t\tw.WriteHeader(401)\n"
+HELPER = "\nfunc authFirstOf(r *http.Request, fns []AuthMiddleware) (*http.Request, bool) {\n\tfor _, fn := range fns {\n\t\tif fn == nil {\n\t\t\tcontinue\n\t\t}\n\t\tif authReq, ok := fn.Auth(r); ok {\n\t\t\treturn authReq, true\n\t\t}\n\t}\n\treturn nil, false\n}\n\ntype AuthMiddleware interface {"
+M("c11-or-helper-ok", "C11", "S",
+  ("generator/file_router.gotmpl", OR_OLD, "\t\t\tauthReq, ok := authFirstOf(r, fns)\n\t\t\tif !ok {\n\t\t\t\tw.WriteHeader(401)\n\t\t\t\treturn\n\t\t\t}\n\t\t\tnext.ServeHTTP(w, authReq)\n"),
+  ("generator/file_router.gotmpl", "\ntype AuthMiddleware interface {", HELPER))
+M("c11-or-helper-stops-at-first", "C11", "V",
+  ("generator/file_router.gotmpl", OR_OLD, "\t\t\tauthReq, ok := authFirstOf(r, fns)\n\t\t\tif !ok {\n\t\t\t\tw.WriteHeader(401)\n\t\t\t\treturn\n\t\t\t}\n\t\t\tnext.ServeHTTP(w, authReq)\n"),
+  ("generator/file_router.gotmpl", "\ntype AuthMiddleware interface {", HELPER.replace("\t\t\treturn authReq, true\n\t\t}\n\t}", "\t\t\treturn authReq, true\n\t\t}\n\t\tbreak\n\t}")))
+M("c11-or-helper-serves-original-request", "C11", "V",
+  ("generator/file_router.gotmpl", OR_OLD, "\t\t\tauthReq, ok := authFirstOf(r, fns)\n\t\t\tif !ok {\n\t\t\t\tw.WriteHeader(401)\n\t\t\t\treturn\n\t\t\t}\n\t\t\t_ = authReq\n\t\t\tnext.ServeHTTP(w, r)\n"),
+  ("generator/file_router.gotmpl", "\ntype AuthMiddleware interface {", HELPER))
+M("c11-or-helper-accepts-on-reject", "C11", "V",
+  ("generator/file_router.gotmpl", OR_OLD, "\t\t\tauthReq, ok := authFirstOf(r, fns)\n\t\t\tif !ok {\n\t\t\t\tw.WriteHeader(401)\n\t\t\t\treturn\n\t\t\t}\n\t\t\tnext.ServeHTTP(w, authReq)\n"),
+  ("generator/file_router.gotmpl", "\ntype AuthMiddleware interface {", HELPER.replace("if authReq, ok := fn.Auth(r); ok {", "if authReq, ok := fn.Auth(r); ok || authReq != nil {")))
+TOK_OLD = "\tvar token string\n\ths := r.Header.Values(\"Authorization\")\n\tif len(hs) == 0 {\n\t\treturn nil, false\n\t}\n\ttoken = hs[0]\n\n\ttoken = strings.TrimPrefix(token, \"Bearer \")\n"
+M("c11-token-flow-ok", "C11", "S",
+  ("generator/file_router.gotmpl", TOK_OLD, "\tvalues := r.Header.Values(\"Authorization\")\n\tif len(values) == 0 {\n\t\treturn nil, false\n\t}\n\ttoken := strings.TrimPrefix(values[0], \"Bearer \")\n"))
+M("c11-token-flow-last-value", "C11", "V",
+  ("generator/file_router.gotmpl", TOK_OLD, "\tvalues := r.Header.Values(\"Authorization\")\n\tif len(values) == 0 {\n\t\treturn nil, false\n\t}\n\ttoken := strings.TrimPrefix(values[len(values)-1], \"Bearer \")\n"))
+M("c11-token-flow-no-guard", "C11", "V",
+  ("generator/file_router.gotmpl", TOK_OLD, "\tvalues := r.Header.Values(\"Authorization\")\n\tvalues = append(values, \"\")\n\ttoken := strings.TrimPrefix(values[0], \"Bearer \")\n"))
+WF_OLD = "\timportedBs, err := imports.Process(\"\", bs, nil)\n\tif err != nil {\n\t\treturn fmt.Errorf(\"error on format go source (%s): %w\", filepath, err)\n\t}\n"
+M("c01-format-wrapper-ok", "C01", "S",
+  ("goag.go", WF_OLD, "\timportedBs, err := formatGoSource(bs, filepath)\n\tif err != nil {\n\t\treturn err\n\t}\n"),
+  ("goag.go", "func WriteToFile(bs []byte, filepath string) error {", "func formatGoSource(src []byte, filename string) ([]byte, error) {\n\tout, err := imports.Process(\"\", src, nil)\n\tif err != nil {\n\t\treturn nil, fmt.Errorf(\"error on format go source (%s): %w\", filename, err)\n\t}\n\treturn out, nil\n}\n\nfunc WriteToFile(bs []byte, filepath string) error {"))
+M("c01-format-wrapper-returns-raw-on-error", "C01", "V",
+  ("goag.go", WF_OLD, "\timportedBs, err := formatGoSource(bs, filepath)\n\tif err != nil {\n\t\treturn err\n\t}\n"),
+  ("goag.go", "func WriteToFile(bs []byte, filepath string) error {", "func formatGoSource(src []byte, filename string) ([]byte, error) {\n\tout, err := imports.Process(\"\", src, nil)\n\tif err != nil {\n\t\tlog.Printf(\"format %s: %v\", filename, err)\n\t\treturn src, nil\n\t}\n\treturn out, nil\n}\n\nfunc WriteToFile(bs []byte, filepath string) error {"))
